@@ -3,6 +3,7 @@ package configmigrate
 import (
 	"bytes"
 	"fmt"
+	"strings"
 
 	"github.com/AdguardTeam/golibs/log"
 	yaml "gopkg.in/yaml.v3"
@@ -71,11 +72,51 @@ func (m *Migrator) Migrate(body []byte, target uint) (newBody []byte, upgraded b
 	enc := yaml.NewEncoder(buf)
 	enc.SetIndent(2)
 
-	if err = enc.Encode(diskConf); err != nil {
+	if err = enc.Encode(encodable(diskConf)); err != nil {
 		return body, false, fmt.Errorf("generating new config: %w", err)
 	}
 
 	return buf.Bytes(), true, nil
+}
+
+// encodable returns v with the strings that the encoder doesn't write the way
+// they read back replaced by nodes that it does.  A string with line breaks is
+// written as a literal block, and if it begins with a line break or a tab, that
+// block reads back as another string, or not at all.  Containers are changed
+// in place.
+func encodable(v any) (res any) {
+	switch v := v.(type) {
+	case string:
+		if strings.Contains(v, "\n") && (v[0] == '\n' || v[0] == '\t') {
+			return &yaml.Node{
+				Kind:  yaml.ScalarNode,
+				Tag:   "!!str",
+				Value: v,
+				Style: yaml.DoubleQuotedStyle,
+			}
+		}
+	case []string:
+		arr := make(yarr, len(v))
+		for i, s := range v {
+			arr[i] = encodable(s)
+		}
+
+		return arr
+	case yarr:
+		for i, elem := range v {
+			v[i] = encodable(elem)
+		}
+	case yobj:
+		for k, elem := range v {
+			v[k] = encodable(elem)
+		}
+	case map[any]any:
+		for k, elem := range v {
+			v[k] = encodable(elem)
+		}
+	}
+
+	return v
 }
 
 // validateVersion validates the current and desired schema versions.
